@@ -138,6 +138,8 @@ class Tle:
                 self.name = self.name[2:]
 
         self._check_validity(text)
+        # The validity is checked on stripped lines, the columns have to be read from the same
+        text = [line.strip() for line in text]
         self.text = "\n".join(text)
 
         first, second = text[0], text[1]
